@@ -90,7 +90,27 @@ var c10Roots = []struct {
 }
 
 var c10Strings = []string{"a", "b\"c", "x y", "`", "é", "line\nbreak", "tab\t", "\xff\xfe", "", "nul\x00", "back\\slash", "'", "日本", "%v @x", "crlf\r\nline\r\n", "cr\rmid", "two\nlines", "tail\n", "\ufeffbom", "sep\u2028x", "\a\b\f\v\x7f", "multi\nline `tick`\n"}
-var c10Ints = []int64{0, 1, -1, 42, 97, 127, -128, 255, 1 << 31, -(1 << 31), math.MaxInt64, math.MinInt64, 65, 10, 39}
+var c10Ints = []int64{0, 1, -1, 42, 97, 127, -128, 255, 1 << 31, -(1 << 31), math.MaxInt64, math.MinInt64, 65, 10, 39,
+	// the edges of the table an int32 is looked up in (code points): last ASCII, DEL, C1, NBSP, soft hyphen, Latin-1 letter, the
+	// surrogate block and its neighbours, U+FFFD and the non-characters after it, first astral, an emoji, the last code point and one beyond
+	92, 34, 96, 0x7e, 0x80, 0x85, 0xa0, 0xa1, 0xad, 0xe9, 0x2028, 0xd7ff, 0xd800, 0xdbff, 0xdc00, 0xdfff, 0xe000, 0xfeff, 0xfffd, 0xfffe, 0xffff,
+	0x10000, 0x1f600, 0xe0001, 0x10ffff, 0x110000, math.MaxInt32, -0xd800}
+
+// codePointish: an integer drawn around the code-point ranges (any kind can hold some of them; int32 is printed as a rune)
+func codePointish(r *Rng) int64 {
+	switch r.Intn(5) {
+	case 0:
+		return 0xd800 + int64(r.Intn(0x800)) // surrogates
+	case 1:
+		return int64(r.Intn(0x110000))
+	case 2:
+		return int64(r.Intn(0x300))
+	case 3:
+		return Pick(r, c10Ints[15:])
+	default:
+		return 0x10ffff + int64(r.Intn(5)) - 2
+	}
+}
 var c10Floats = []float64{0, 0.5, 1, 1e21, -2.25, 3, 1e-7, math.MaxFloat32, math.SmallestNonzeroFloat64, 0.1, -0.0, 123456789.125, math.MaxFloat64}
 
 // VSpec: a value is regenerated from (root type, seed) — plain data for replays.
@@ -116,6 +136,9 @@ func fillValue(r *Rng, t reflect.Type, depth int) reflect.Value {
 	switch t.Kind() {
 	case reflect.Int, reflect.Int8, reflect.Int16, reflect.Int32, reflect.Int64:
 		x := Pick(r, c10Ints)
+		if r.Chance(25) {
+			x = codePointish(r)
+		}
 		if v.OverflowInt(x) {
 			x = x % 100
 		}
@@ -742,6 +765,8 @@ func genScalarLeaf(r *Rng) *leafCase {
 			v = 1<<(bits-1) - 1
 		case 2:
 			v = int64(r.Intn(300)) - 150
+		case 3:
+			v = codePointish(r)
 		}
 		v = v << (64 - bits) >> (64 - bits)
 		return &leafCase{Kind: k, I: v}
